@@ -149,6 +149,44 @@ def f_spec_bic_accept(a):
 
 
 # property oracles: the implementation side of a spec comparison
+def _verdict(make, make_unvalidated):
+    """ACCEPT | <schwifty class> | CRASH <cls> | INCONSISTENT <what>  (constructor, validate(), is_valid)"""
+    try:
+        make()
+        res = "ACCEPT"
+    except Exception as e:  # noqa: BLE001
+        res = canon_exc(e)
+        res = res[4:] if res.startswith("ERR ") else res
+    try:
+        obj = make_unvalidated()
+        iv = obj.is_valid
+    except Exception as e:  # noqa: BLE001
+        return "CRASH is_valid raised " + type(e).__name__
+    if iv is not (res == "ACCEPT") and not res.startswith("CRASH"):
+        return f"INCONSISTENT is_valid={iv} constructor={res}"
+    return res
+
+
+def f_spec_iban_verdict(a):
+    t = dec(a[0])
+    return _verdict(lambda: IBAN(t), lambda: IBAN(t, allow_invalid=True))
+
+
+def f_spec_bic_verdict(a):
+    t = dec(a[0])
+    strict = b(a[1])
+    if strict:
+        # is_valid has no strict mode: compare constructor and validate(strict) only
+        try:
+            BIC(t, enforce_swift_compliance=True)
+            return "ACCEPT"
+        except Exception as e:  # noqa: BLE001
+            r = canon_exc(e)
+            return r[4:] if r.startswith("ERR ") else r
+    return _verdict(lambda: BIC(t), lambda: BIC(t, allow_invalid=True))
+
+
+
 def f_spec_iban_accept(a):
     try:
         IBAN(dec(a[0]))
